@@ -79,6 +79,7 @@ func runC07(c *Ctx) {
 	c07IfElse(c, es)
 	c07Return(c, es)
 	sentinelIdentity(c, "R8")
+	fuzzLimitGuarded(c, "R9")
 	c.shared("R7", "C02/R3", "next and exit are consumed exactly by the rule drivers: every test against errNext / errExit sits in a driver, so a `next` leaves the current rule list and an `exit` the run from any nesting of statements", nil, c02R3)
 	mapRangeOrder(c, "R5")
 	c07ForIn(c, es)
@@ -428,5 +429,50 @@ func sentinelIdentity(c *Ctx, rule string) {
 	}
 	if n < 12 {
 		c.undecided(rule, "instance-floor", "", fmt.Sprintf("%d err.Error() sites in package lang, 18 confirmed by hand", n))
+	}
+}
+
+// fuzzLimitGuarded: the iteration cap that exists for the fuzzer does not apply to ordinary runs
+func fuzzLimitGuarded(c *Ctx, rule string) {
+	p := c.P
+	c.note("%s loop-limit-only-when-fuzzing: while and for loops run as long as their condition holds. The only other exits are break, errors of the body / condition — and the `fuzz test loop limit`, which must be confined to runs with Evaluator.fuzzing set: every return of that error (or every call of a helper that returns it) sits under the fact `e.fuzzing` == true.", rule)
+	underFuzzing := func(fn *ssa.Function, b *ssa.BasicBlock) bool {
+		for f := range FactsOf(fn).At(b) {
+			if _, isRel := relsOf(f); isRel || !f.truth {
+				continue
+			}
+			if sf, ok := loadedField(f.cond); ok && sf.Is("Evaluator", "fuzzing") {
+				return true
+			}
+		}
+		return false
+	}
+	n := 0
+	for _, fn := range p.Funcs {
+		if !p.InLang(fn) {
+			continue
+		}
+		for _, r := range returnsOf(fn) {
+			res := effectiveResults(r)
+			if len(res) == 0 || !strings.Contains(p.Render(res[len(res)-1]), "fuzz test loop limit") {
+				continue
+			}
+			n++
+			okG := underFuzzing(fn, r.Block())
+			if !okG {
+				// a helper that always may return it: then every call of the helper must be guarded
+				sites := p.CallSitesOf(fn)
+				okG = len(sites) > 0
+				for _, cs := range sites {
+					if !underFuzzing(cs.Parent(), cs.Block()) {
+						okG = false
+					}
+				}
+			}
+			c.check(okG, rule, fmt.Sprintf("loop-limit #%d in %s", n, shortName(fn)), p.InstrPos(r), "only when fuzzing", "the `fuzz test loop limit` error can be returned in an ordinary run (Evaluator.fuzzing is not known to be set here): a loop of more than 10000 iterations aborts although its condition still holds")
+		}
+	}
+	if n == 0 {
+		c.ok(rule, "loop-limit", "", "no iteration cap in the evaluator")
 	}
 }
